@@ -896,7 +896,26 @@ class FnT:
             raise Refuse("keyword arguments in call %s" % ast.unparse(n.func))
         if text in self.spec.opaque:
             pname, atys, rty, mon = self.spec.opaque[text]
-            args = [self.expr(a, env, pre) for a in n.args] + [self.expr(k_.value, env, pre) for k_ in n.keywords]
+            def oarg(a):
+                if isinstance(a, ast.Name) and a.id in ("self", "cls") and a.id not in env:
+                    return Val("()", NONE)      # the object itself handed to an opaque callee: declared as NONE
+                return self.expr(a, env, pre)
+            args = []
+            for a in n.args:
+                if isinstance(a, ast.Starred):
+                    # `f(*args)` with a tuple of known arity (a local bound to a tuple display, a TUP parameter)
+                    tv = self.expr(a.value, env, pre)
+                    if not (isinstance(tv.ty, tuple) and tv.ty[0] == "tuple"):
+                        raise Refuse("starred argument of type %s" % (tv.ty,))
+                    args += [self.comp(tv, i) for i in range(len(tv.ty) - 1)]
+                else:
+                    args.append(oarg(a))
+            if any(k_.arg is None for k_ in n.keywords):
+                raise Refuse("** argument in call %s" % text)
+            args += [oarg(k_.value) for k_ in n.keywords]
+            if len(args) == len(atys):      # None / T where the callee is declared with Optional T
+                args = [self.coerce(a, t, "argument of the opaque call %s" % text)
+                        if (isinstance(t, tuple) and t[0] == "opt" and a.ty != t) else a for a, t in zip(args, atys)]
             if [a.ty for a in args] != list(atys):
                 raise Refuse("opaque call %s: argument types %s" % (text, [a.ty for a in args]))
             code = " ".join([env[pname].lean] + [atom(a.code) for a in args])
@@ -1543,6 +1562,11 @@ class FnT:
             if a.ty == BOOL:
                 p = "(%s = %s)" % (a.code, "true" if b.lit else "false")
                 return p if opn == "Is" else "(¬ %s)" % p
+            if a.ty == OPT(BOOL):
+                p = "(%s = some %s)" % (a.code, "true" if b.lit else "false")
+                return p if opn == "Is" else "(¬ %s)" % p
+            if a.ty == ANY or (isinstance(a.ty, tuple) and a.ty[0] == "opt" and a.ty[1] in (ANY, BOOL)):
+                raise Refuse("`is True/False` on a value of type %s" % (a.ty,))
             return "False" if opn == "Is" else "True"      # no other declared type is the object True/False
         if opn in ("Is", "IsNot") and a.ty == INT and b.ty == INT:
             # identity of ints: equality for the small ints CPython caches (-5..256) - constants only
@@ -1661,6 +1685,17 @@ class FnT:
     def s_Pass(self, s, rest, env, k):
         return self.block(rest, env, k)
 
+    def s_Import(self, s, rest, env, k):
+        """`import a.b` / `from a import b` inside a function body: no value of the subset depends on it (module
+        constants are looked up by their dotted text); refused when it would rebind a name the function uses"""
+        for a in s.names:
+            bound = (a.asname or a.name).split(".")[0]
+            if bound in env or bound == "*":
+                raise Refuse("import rebinds the name %s (line %d)" % (bound, s.lineno))
+        return self.block(rest, env, k)
+
+    s_ImportFrom = s_Import
+
     def is_log_call(self, e):
         if isinstance(e, ast.Call) and isinstance(e.func, ast.Attribute):
             root = e.func.value
@@ -1727,7 +1762,7 @@ class FnT:
         if self.is_dropped(s):
             self.check_inert(e.args if isinstance(e, ast.Call) else [], "a dropped call")
             return self.block(rest, env, k)
-        if isinstance(e, ast.Call) and (ast.unparse(e.func) in self.spec.calls
+        if isinstance(e, ast.Call) and (ast.unparse(e.func) in self.spec.calls or ast.unparse(e.func) in self.spec.opaque
                                         or (isinstance(e.func, ast.Name) and e.func.id in self.done)):
             pre = []
             env = dict(env)
@@ -2919,7 +2954,7 @@ def parse_code(t, depth=0):
         return "pSet"
     if isinstance(t, tuple) and t[0] == "list":
         return "(pListOf %s)" % parse_code(t[1], depth)
-    if isinstance(t, tuple) and t[0] == "opt" and t[1] in (INT, BYTES, STR):
+    if isinstance(t, tuple) and t[0] == "opt" and t[1] in (INT, BYTES, STR, BOOL):
         return "(pOpt %s)" % parse_code(t[1], depth)
     if isinstance(t, tuple) and t[0] == "tuple":
         if depth >= len(TUPLE_SEPS):
@@ -2970,8 +3005,38 @@ def stubBytes (seed : Nat) (args : List Int) : Py Bytes :=
 def stubInt (seed : Nat) (args : List Int) : Py Int :=
   let h := stubHash seed args
   if h % 11 = 0 then .error .index else .ok (stubIntPure seed args)
+def stubBoolPure (seed : Nat) (args : List Int) : Bool := stubHash seed args % 2 = 0
+def stubBool (seed : Nat) (args : List Int) : Py Bool :=
+  let h := stubHash seed args
+  if h % 11 = 0 then .error .index else .ok (stubBoolPure seed args)
+def stubOptBoolPure (seed : Nat) (args : List Int) : Option Bool :=
+  let h := stubHash seed args
+  if h % 3 = 0 then none else some (h % 3 = 1)
+def stubOptBool (seed : Nat) (args : List Int) : Py (Option Bool) :=
+  let h := stubHash seed args
+  if h % 11 = 0 then .error .index else .ok (stubOptBoolPure seed args)
+def stubOptIntPure (seed : Nat) (args : List Int) : Option Int :=
+  if stubHash seed args % 3 = 0 then none else some (stubIntPure seed args)
+def stubOptInt (seed : Nat) (args : List Int) : Py (Option Int) :=
+  if stubHash seed args % 11 = 0 then .error .index else .ok (stubOptIntPure seed args)
+def stubOptBytesPure (seed : Nat) (args : List Int) : Option Bytes :=
+  if stubHash seed args % 3 = 0 then none else some (stubBytesPure seed args)
+def stubOptBytes (seed : Nat) (args : List Int) : Py (Option Bytes) :=
+  let h := stubHash seed args
+  if h % 11 = 0 then .error .index else if h % 11 = 1 then .error (.tagCmd 1) else .ok (stubOptBytesPure seed args)
+def stubBytes2Pure (seed : Nat) (args : List Int) : Bytes × Bytes :=
+  (stubBytesPure seed args, stubBytesPure (seed + 100) args)
+def stubBytes2 (seed : Nat) (args : List Int) : Py (Bytes × Bytes) :=
+  let h := stubHash seed args
+  if h % 11 = 0 then .error .index else if h % 11 = 1 then .error (.tagCmd 1) else .ok (stubBytes2Pure seed args)
 def fuelDefault : Nat := 100000
 """
+STUB_RESULTS = {BYTES: "stubBytes", INT: "stubInt", BOOL: "stubBool", OPT(BOOL): "stubOptBool",
+                OPT(INT): "stubOptInt", OPT(BYTES): "stubOptBytes", TUP(BYTES, BYTES): "stubBytes2"}
+STUB_ARGS = {INT: "[%s]", BOOL: "[if %s then 1 else 0]", BYTES: "(PyFn.ints %s)", NONE: "([] : List Int)",
+             OPT(INT): "(match %s with | none => [65000] | some v => [65001, v])",
+             OPT(BYTES): "(match %s with | none => [65000] | some v => 65001 :: PyFn.ints v)",
+             OPT(BOOL): "(match %s with | none => [65000] | some v => [65001, if v then 1 else 0])"}
 
 
 def emit_driver(specs, out_dir):
@@ -2990,7 +3055,7 @@ def emit_driver(specs, out_dir):
         L = []
         if sp.refused:
             continue
-        if sp.opaque and not all(set(a) <= {INT, BYTES, BOOL} and r in (INT, BYTES) for (_, a, r, _) in sp.opaque.values()):
+        if sp.opaque and not all(set(a) <= set(STUB_ARGS) and r in STUB_RESULTS for (_, a, r, _) in sp.opaque.values()):
             continue
         ptys = [t for _, t in sp.params] + [t for (_, _, t) in sp.binds]
         RECORDS.clear()
@@ -3007,10 +3072,11 @@ def emit_driver(specs, out_dir):
         stubs = []
         for k_, (text_, (pn_, atys_, rty_, mon_)) in enumerate(sorted(sp.opaque.items())):
             vs_ = ["o%d" % i for i in range(len(atys_))]
-            enc_ = " ++ ".join({INT: "[%s]", BOOL: "[if %s then 1 else 0]", BYTES: "(PyFn.ints %s)"}[t_] % v_
+            enc_ = " ++ ".join((STUB_ARGS[t_] % v_ if "%s" in STUB_ARGS[t_] else STUB_ARGS[t_])
                                for t_, v_ in zip(atys_, vs_)) or "[]"
-            fn_ = {BYTES: "stubBytes", INT: "stubInt"}[rty_] + ("" if mon_ else "Pure")
-            stubs.append("(fun %s => %s %d (%s))" % (" ".join(vs_) or "_", fn_, k_ + 1, enc_))
+            fn_ = STUB_RESULTS[rty_] + ("" if mon_ else "Pure")
+            stubs.append("(fun %s => %s %d (%s))" % (" ".join(vs_), fn_, k_ + 1, enc_) if vs_
+                         else "(%s %d [])" % (fn_, k_ + 1))      # no arguments: the parameter is the value itself
         call = " ".join(["Gen.Fn." + sp.lean] + (["fuelDefault"] if sp.fuel else []) + xvars + stubs)
         if sp.mon:
             body = '(match %s with | .ok v => "ok " ++ %s | .error e => "exc " ++ e.name)' % (call, rend)
